@@ -41,3 +41,18 @@ package eth_tx
 //@   requires tx != nil && tx.data.V != nil && s.chainId != nil && s.chainIdMul != nil && big8 != nil
 //@   ensures [chain] result1 == nil && protectedV(big(tx.data.V)) ==> derivedChain(big(tx.data.V)) == big(s.chainId)
 //@   modifies nothing
+
+// Used by the pool's check of wrapped transactions (service.verifyETHTx): sender recovery with its cache, the
+// transaction hash with its cache and the conversion are queries as far as the caller's state is concerned.
+//@ func Sender
+//@   option trusted
+//@   modifies heap("eth_tx.Transaction")
+
+//@ func Transaction.Hash
+//@   option trusted
+//@   modifies heap("eth_tx.Transaction")
+
+//@ func ConvertTx
+//@   option trusted
+//@   ensures result != nil && fresh(result)
+//@   modifies nothing
